@@ -83,6 +83,8 @@ fn mutation() -> BoxedStrategy<Mutation> {
         1 => any::<u16>().prop_map(|other| Mutation::SpliceIv { other }),
         2 => any::<u16>().prop_map(|other| Mutation::SwapAuthData { other }),
         2 => (0u8..4).prop_map(|to| Mutation::Remask { to }),
+        3 => any::<u8>().prop_map(|seed| Mutation::ReIv { seed }),
+        3 => (0u8..3).prop_map(|variant| Mutation::HandshakeRecord { variant }),
     ]
     .boxed()
 }
@@ -192,9 +194,15 @@ pub fn ops_strategy(n_peers: u8, mix: Mix, max_fragments: usize) -> BoxedStrateg
             v
         })
         .boxed();
+    let n = 1 + n_peers;
+    // a complete honest exchange (establishes / uses a session)
+    let exchange = (0u8..n, 0u8..n, body(), prop_oneof![4 => Just(true), 1 => Just(false)])
+        .prop_map(|(from, to, body, with_record)| vec![Op::Submit { from, to, body, with_record }, Op::DeliverAll])
+        .boxed();
     let frag = match mix {
         Mix::Identity => prop_oneof![3 => single, 2 => attack].boxed(),
         Mix::Exemptions => prop_oneof![6 => single, 1 => attack].boxed(),
+        Mix::Tamper | Mix::Replay => prop_oneof![5 => single, 1 => exchange].boxed(),
         _ => single,
     };
     proptest::collection::vec(frag, 1..max_fragments)
